@@ -5,10 +5,11 @@ import json
 import os
 
 from harness import httpfam as H
+from harness import httpresp as R
 from harness.common import framework as fw
 
 PROP = "C03"
-GENERATED = ["HttpGen.v"]
+GENERATED = ["HttpGen.v", "HttpRespGen.v"]
 RULE = ("streams = grammar-generated request pipelines (methods x target forms x versions x header sets x "
         "length/chunked/trailers bodies), each smuggling-mutation class, byte mutations, truncations; x limit "
         "configurations (default and small, equal and unequal); x segmentations (one-shot, byte-at-a-time, single "
@@ -43,6 +44,19 @@ def sig_cr_boundary(case, params):
     return any(0 < c < len(s) and s[c - 1] == 13 and s[c] == 10 for c in _cuts(case))
 
 
+def sig_lax_cr_after_last_chunk(case, params):
+    """Response (lax) parser: a read boundary right after the LF of a last-chunk line ("0" CR LF), the next byte a CR."""
+    if case.get("parser") != "response":
+        return False
+    s = bytes.fromhex(case["stream"])
+    for c in _cuts(case):
+        if 0 < c < len(s) and s[c - 1] == 10 and s[c] == 13:
+            line = s[:c - 1].rsplit(b"\n", 1)[-1].split(b";", 1)[0].strip()
+            if line and line.strip(b"0") == b"":
+                return True
+    return False
+
+
 def sig_lax_double_cr(case, params):
     """Response (lax) parser: a read boundary inside a run of CRs before LF after chunk data."""
     if case.get("parser") != "response":
@@ -51,7 +65,8 @@ def sig_lax_double_cr(case, params):
     return any(0 < c < len(s) and s[c - 1] == 13 and s[c] in (13, 10) for c in _cuts(case)) and b"\r\r" in s
 
 
-SIGNATURES = {"cr_boundary_limit": sig_cr_boundary, "lax_double_cr": sig_lax_double_cr}
+SIGNATURES = {"cr_boundary_limit": sig_cr_boundary, "lax_double_cr": sig_lax_double_cr,
+              "lax_cr_after_last_chunk": sig_lax_cr_after_last_chunk}
 
 COMPLETIONS = [b"\r\n\r\n", b"\r\n0\r\n\r\n", b"\r\n\r\n0\r\n\r\n", b"\n\r\n\r\n"]
 
@@ -189,12 +204,120 @@ def run(ctx):
             judge(ctx, lambda sg, lm: H.impl_run_response(sg, lm, eof=False), s, lim, segs1, one, seg, "response")
     ctx.count("suite:response-self-consistency", ranr)
     ctx.sample({"suite": "response", "stream": s.hex()})
+    run_response_model(ctx)
+
+
+def _resp_runner(sg, lm):
+    return R.impl_run(sg, lm, True, True, False)
+
+
+def complete_but_rejected(one, seg):
+    """The one-read run accepts the stream and is left with nothing pending (every body ended cleanly, no partial
+    line, no open header block), yet the split run raises: not an "earlier" rejection, the stream is complete."""
+    st = one["state"]
+    return (one["outcome"].startswith("OK") and seg["outcome"].startswith("ERR") and bool(one["msgs"])
+            and all(m["eof"] and m["exc"] is None for m in one["msgs"])
+            and st["tail"] == 0 and st["lines"] == 0 and one.get("pk", "none") == "none")
+
+
+def run_response_model(ctx):
+    """Suite "response-parser-model": coq/Model/HttpResp.v (extracted) against HttpResponseParser per segmentation,
+    the C03 oracle on the lax-dialect generators, and the strict-reading oracle (well-formed pipelines must be read
+    as RFC 9112 reads them under every segmentation; independent of the model)."""
+    import time as _t
+    cpu0 = _t.process_time()
+    okr, exer = R.build_model()
+    ctx.oblige("model-runner-build:HTTPRESP", "correspondence", okr, "" if okr else exer)
+    if not okr:
+        return
+    rng = ctx.rng
+    bad, nprim = R.check_primitives(exer, rng, ctx.quick)
+    ctx.oblige("correspondence:response-text-primitives", "correspondence", not bad, "; ".join(bad[:4]))
+    ctx.count("suite:response-text-primitives", nprim)
+    streams = []       # (stream, lim, segmentations, flags or None)
+    cdir = os.path.join(fw.VERIF, "corpus", "C03")
+    for fn in sorted(os.listdir(cdir)) if os.path.isdir(cdir) else []:
+        c = json.load(open(os.path.join(cdir, fn)))
+        c = c.get("case", c)
+        if c.get("parser") == "response":
+            st = bytes.fromhex(c["stream"])
+            streams.append((st, tuple(c["lim"]), [[st], [bytes.fromhex(x) for x in c["segs"]]], (True, True, False)))
+    for st in R.DIRECTED:
+        cuts = all_single_cuts(st)
+        streams.append((st, H.DEFAULT_LIM, [[st]] + cuts + [[st[i:i + 1] for i in range(len(st))]], (True, True, False)))
+        for fl in ((False, True, True), (True, False, True)):
+            streams.append((st, H.DEFAULT_LIM, [[st], [st[i:i + 1] for i in range(len(st))]] + (cuts if not ctx.quick else cuts[-12:]), fl))
+    n = 120 if ctx.quick else 2500
+    for i in range(n):
+        r = rng.random()
+        st = R.gen_lax_stream(rng) if r < 0.65 else (H.gen_response_stream(rng) if r < 0.92 else H.rand_bytes(rng, rng.randint(0, 80)))
+        lim = H.DEFAULT_LIM if rng.random() < 0.5 else rng.choice(H.SMALL_LIMS)
+        segs = H.segmentations(rng, st, ctx.quick)
+        if i % (20 if ctx.quick else 4) == 0 and len(st) < 300:
+            segs += all_single_cuts(st)
+        # the C03 oracle needs one configuration per stream: half of the streams are run without end-of-stream
+        fl = (True, True, False) if i % 2 == 0 else R.flags(rng)
+        streams.append((st, lim, segs, fl))
+    cases, index = [], []
+    for si, (st, lim, segs, fl) in enumerate(streams):
+        for segs1 in segs:
+            cases.append((segs1, lim, *fl))
+            index.append(si)
+    model = R.model_run_many(exer, cases)
+    ones, impls, ran = {}, [], 0
+    for c, m, si in zip(cases, model, index):
+        im = R.impl_run(*c)
+        ran += 1
+        st = streams[si][0]
+        ctx.case((st, c[1:], tuple(len(x) for x in c[0]), "resp-model"), nontrivial=bool(im["msgs"]))
+        ctx.count("resp-model-outcome:" + im["outcome"].split("@")[0].split(":")[0 if im["outcome"].startswith("OK") else 1])
+        if not R.same(m, im):
+            ctx.disagreement("response-parser-model", {"stream": st.hex(), "lim": list(c[1]), "segs": [x.hex() for x in c[0]],
+                                                       "with_body": c[2], "until_eof": c[3], "eof": c[4]}, R.strip_model(m), im)
+        if streams[si][3] == (True, True, False):
+            impls.append((c, si, im))
+            if len(c[0]) == 1:
+                ones[si] = im
+    for c, si, im in impls:
+        if len(c[0]) == 1 or si not in ones:
+            continue
+        if complete_but_rejected(ones[si], im):
+            ctx.violation({"parser": "response", "stream": streams[si][0].hex(), "lim": list(c[1]), "segs": [x.hex() for x in c[0]],
+                           "one_shot_outcome": ones[si]["outcome"], "split_outcome": im["outcome"], "kind": "early-or-flip"},
+                          f"response parser: a complete stream accepted in one read is rejected when split ({im['outcome']})")
+        else:
+            judge(ctx, _resp_runner, streams[si][0], c[1], c[0], ones[si], im, "response")
+    ctx.sample({"suite": "response-parser-model", "stream": streams[-1][0].hex(), "lim": list(streams[-1][1])})
+    ctx.close_suite("response-parser-model", ran)
+    # strict reading of well-formed pipelines under every segmentation (implementation only)
+    nw = 60 if ctx.quick else 800
+    nsr = 0
+    for i in range(nw):
+        st, expected = R.gen_wellformed(rng)
+        segs = H.segmentations(rng, st, ctx.quick)
+        if i % 6 == 0 and len(st) < 400:
+            segs += all_single_cuts(st)
+        for segs1 in segs:
+            im = R.impl_run(segs1, H.DEFAULT_LIM, True, True, True)
+            nsr += 1
+            ctx.case((st, tuple(len(x) for x in segs1), "strict-reading"), nontrivial=True)
+            why = R.strict_reading_violation(expected, im)
+            if why:
+                ctx.violation({"parser": "response", "kind": "strict-reading", "stream": st.hex(), "lim": list(H.DEFAULT_LIM),
+                               "segs": [x.hex() for x in segs1], "expected": expected}, "response parser, strict reading: " + why)
+                break
+    ctx.count("suite:response-strict-reading", nsr)
+    ctx.notes.append(f"response-parser-model part: {_t.process_time() - cpu0:.1f}s CPU in this process")
 
 
 def replay(ctx, case):
     s = bytes.fromhex(case["stream"])
     lim = tuple(case["lim"])
     segs = [bytes.fromhex(x) for x in case["segs"]]
+    if case.get("kind") == "strict-reading":
+        im = R.impl_run(segs, lim, True, True, True)
+        why = R.strict_reading_violation(case["expected"], im)
+        return {"observed": im, "why": why, "violates": why is not None}
     if case.get("kind") == "concurrent-consumer":
         one, got = H.impl_run([s], lim), H.impl_run_consumed(segs, lim)
         bad = any(g["finished"] and r["eof"] and r["exc"] is None and g["data"] != r["data"] for r, g in zip(one["msgs"], got["msgs"]))
@@ -203,6 +326,8 @@ def replay(ctx, case):
     one, seg = runner([s], lim), runner(segs, lim)
     why = H.consistent(one, seg)
     viol = False
+    if case.get("parser") == "response" and complete_but_rejected(_resp_runner([s], lim), _resp_runner(segs, lim)):
+        return {"one_shot": one["outcome"], "split": seg["outcome"], "why": "complete stream rejected when split", "violates": True}
     if why == "early":
         for comp in COMPLETIONS:
             full = runner([s + comp], lim)
